@@ -98,7 +98,10 @@ def subst_stmt(s, env, ren):
             rng_ = ["range"] + [(_nm(env[x]) if isinstance(x, str) and x in env and not isinstance(env[x], list) else
                                  (env[x][1] if isinstance(x, str) and x in env and env[x][0] == "n" else x))
                                 for x in rng_[1:]]
-        return ["for", s[1], rng_, [subst_stmt(b, env, ren) for b in s[3]]]
+        # the iterator shadows a substituted name (parameter) of the same name inside the body
+        inner_env = {k_: v_ for k_, v_ in env.items() if k_ != s[1]}
+        inner_ren = {k_: v_ for k_, v_ in ren.items() if k_ != s[1]}
+        return ["for", s[1], rng_, [subst_stmt(b, inner_env, inner_ren) for b in s[3]]]
     if k in ("raw", "import", "func"):
         return copy.deepcopy(s)
     raise ValueError(k)
